@@ -1,0 +1,50 @@
+//go:build verif
+
+package kgo
+
+import (
+	"github.com/twmb/franz-go/pkg/kgo/internal/sticky"
+	"github.com/twmb/franz-go/pkg/kmsg"
+)
+
+// This file exists only in builds with the `verif` tag. Nothing here changes
+// client behavior.
+
+// VerifSetPartitionRacks sets the partition rack map that balanceGroup
+// normally derives from cached metadata (KIP-881).
+func VerifSetPartitionRacks(b *ConsumerBalancer, racks map[string][]string) {
+	b.partitionRacks = racks
+}
+
+// VerifCoopStickyPlans runs the sticky engine once exactly as
+// (*stickyBalancer).Balance does for the cooperative balancer and returns a
+// copy of the plan before AdjustCooperative together with the plan after it.
+func VerifCoopStickyPlans(b *ConsumerBalancer, topics map[string]int32) (pre, post map[string]map[string][]int32) {
+	stickyMembers := make([]sticky.GroupMember, 0, len(b.Members()))
+	b.EachMember(func(member *kmsg.JoinGroupResponseMember, meta *kmsg.ConsumerMemberMetadata) {
+		var rack string
+		if meta.Rack != nil {
+			rack = *meta.Rack
+		}
+		stickyMembers = append(stickyMembers, sticky.GroupMember{
+			ID:          member.MemberID,
+			Topics:      meta.Topics,
+			UserData:    meta.UserData,
+			Owned:       meta.OwnedPartitions,
+			Generation:  meta.Generation,
+			Cooperative: true,
+			Rack:        rack,
+		})
+	})
+	p := &BalancePlan{sticky.BalanceWithRacks(stickyMembers, topics, b.partitionRacks)}
+	pre = make(map[string]map[string][]int32, len(p.plan))
+	for m, ts := range p.plan {
+		c := make(map[string][]int32, len(ts))
+		for t, ps := range ts {
+			c[t] = append([]int32(nil), ps...)
+		}
+		pre[m] = c
+	}
+	p.AdjustCooperative(b)
+	return pre, p.plan
+}
